@@ -36,10 +36,10 @@ func Load(dir string, overlay map[string][]byte) (*an.Prog, error) {
 		return nil, err
 	}
 	var notes []string
-	const maxRounds = 4
+	const maxRounds = 9
 	for round := 1; round <= maxRounds; round++ {
 		fresh := p.Fresh()
-		if len(fresh) == 0 {
+		if len(fresh) == 0 && round == 1 {
 			break
 		}
 		ov, did, skipped := rewrite(p, fresh, round)
@@ -89,6 +89,17 @@ type rw struct {
 	addImports  map[string]map[string]string // file → local name → path
 	newPkgUses  map[string]map[string]int    // file → import path → uses added by inlined text
 	deleted     map[string][][2]int          // file → deleted byte ranges
+	reduced     map[*types.Var]int           // local function variables: calls replaced by the literal's body this round
+}
+
+// litVar: a local variable that holds one function literal for its whole life (defined with it, never assigned again,
+// its address never taken).
+type litVar struct {
+	v     *types.Var
+	lit   *ast.FuncLit
+	uses  int // identifiers that refer to it
+	idle  int // of those, operands of an assignment to blank
+	calls int // of those, called
 }
 
 func (r *rw) file(name string) *fileEdits {
@@ -117,7 +128,7 @@ func (r *rw) text(n ast.Node) string {
 
 func rewrite(p *an.Prog, fresh []*ssa.Function, round int) (map[string][]byte, []string, []string) {
 	r := &rw{p: p, files: map[string]*fileEdits{}, fresh: map[*types.Func]*ast.FuncDecl{}, pkgOf: map[*types.Func]*packages.Package{}, round: round,
-		inlinedUses: map[*types.Func]int{}, copied: map[*types.Func]bool{}, addImports: map[string]map[string]string{}, newPkgUses: map[string]map[string]int{}, deleted: map[string][][2]int{}}
+		reduced: map[*types.Var]int{}, inlinedUses: map[*types.Func]int{}, copied: map[*types.Func]bool{}, addImports: map[string]map[string]string{}, newPkgUses: map[string]map[string]int{}, deleted: map[string][][2]int{}}
 	for _, f := range fresh {
 		obj, _ := f.Object().(*types.Func)
 		decl, _ := f.Syntax().(*ast.FuncDecl)
@@ -148,12 +159,54 @@ func rewrite(p *an.Prog, fresh []*ssa.Function, round int) (map[string][]byte, [
 			}
 		}
 	}
+	// method values of fresh methods become literals that call the method (a round of their own: the call inside the
+	// literal is inlined by the next one)
 	for _, pk := range p.Pkgs {
 		if pk.TypesInfo == nil {
 			continue
 		}
 		for _, file := range pk.Syntax {
-			r.inlineFile(pk, file)
+			r.wrapMethodValues(pk, file)
+		}
+	}
+	if len(r.did) == 0 {
+		for _, pk := range p.Pkgs {
+			if pk.TypesInfo == nil {
+				continue
+			}
+			for _, file := range pk.Syntax {
+				r.inlineFile(pk, file)
+			}
+		}
+	}
+	if len(r.did) == 0 {
+		for _, pk := range p.Pkgs {
+			if pk.TypesInfo == nil {
+				continue
+			}
+			for _, file := range pk.Syntax {
+				r.reduceLiterals(pk, file)
+			}
+		}
+	}
+	if len(r.did) == 0 {
+		for _, pk := range p.Pkgs {
+			if pk.TypesInfo == nil {
+				continue
+			}
+			for _, file := range pk.Syntax {
+				r.scalarReplace(pk, file)
+			}
+		}
+	}
+	if len(r.did) == 0 {
+		for _, pk := range p.Pkgs {
+			if pk.TypesInfo == nil {
+				continue
+			}
+			for _, file := range pk.Syntax {
+				r.foldConstIfs(pk, file)
+			}
 		}
 	}
 	// drop fresh functions nothing refers to any more
@@ -263,8 +316,397 @@ func apply(fe *fileEdits) ([]byte, bool) {
 	return out, true
 }
 
+func (r *rw) skipN(name string, pos token.Pos, why string) {
+	r.skipped = append(r.skipped, fmt.Sprintf("round %d: call of %s at %s left in place: %s", r.round, name, r.p.Pos(pos), why))
+}
+
 func (r *rw) skip(callee *types.Func, pos token.Pos, why string) {
 	r.skipped = append(r.skipped, fmt.Sprintf("round %d: call of %s at %s left in place: %s", r.round, callee.FullName(), r.p.Pos(pos), why))
+}
+
+// wrapMethodValues: `x.m` used as a value (a callback handed to another function), m a fresh method with a pointer
+// receiver and x a local pointer variable that is assigned once and whose address is not taken, is rewritten to
+// `func(a…) … { return x.m(a…) }`. A method value binds x when it is evaluated, the literal reads x when it is
+// called; with x never reassigned the two are the same.
+func (r *rw) wrapMethodValues(pk *packages.Package, file *ast.File) {
+	info := pk.TypesInfo
+	callFun := map[ast.Expr]bool{}
+	ast.Inspect(file, func(n ast.Node) bool {
+		if c, ok := n.(*ast.CallExpr); ok {
+			callFun[ast.Unparen(c.Fun)] = true
+		}
+		return true
+	})
+	var sels []*ast.SelectorExpr
+	ast.Inspect(file, func(n ast.Node) bool {
+		se, ok := n.(*ast.SelectorExpr)
+		if !ok || callFun[se] {
+			return true
+		}
+		sel := info.Selections[se]
+		if sel == nil || sel.Kind() != types.MethodVal || len(sel.Index()) != 1 {
+			return true
+		}
+		fn, _ := sel.Obj().(*types.Func)
+		if _, isFresh := r.fresh[fn]; fn != nil && isFresh && r.pkgOf[fn] == pk {
+			sels = append(sels, se)
+		}
+		return true
+	})
+	for _, se := range sels {
+		fn := info.Selections[se].Obj().(*types.Func)
+		sig := fn.Type().(*types.Signature)
+		why := ""
+		id, isID := ast.Unparen(se.X).(*ast.Ident)
+		var v *types.Var
+		if isID {
+			v, _ = info.Uses[id].(*types.Var)
+		}
+		switch {
+		case v == nil || v.IsField() || v.Parent() == nil || v.Parent() == pk.Types.Scope():
+			why = "the receiver is not a local variable"
+		case sig.Recv() == nil || !types.Identical(sig.Recv().Type(), v.Type()):
+			why = "the receiver is converted"
+		case sig.Variadic() || sig.TypeParams() != nil || sig.RecvTypeParams() != nil:
+			why = "variadic or generic method"
+		}
+		if _, isPtr := types.Unalias(sig.Recv().Type()).(*types.Pointer); why == "" && !isPtr {
+			why = "value receiver (copied when the method value is made)"
+		}
+		if why == "" {
+			why = mutatedIn(info, enclosingFunc(file, se.Pos()), v)
+		}
+		var ps, as, rs []string
+		r.site++
+		if why == "" {
+			for i := 0; i < sig.Params().Len(); i++ {
+				ts, ok := r.typeText(pk, file, sig.Params().At(i).Type())
+				if !ok {
+					why = "a parameter type cannot be written at the site"
+					break
+				}
+				a := fmt.Sprintf("mv%d_%d_a%d", r.round, r.site, i)
+				ps = append(ps, a+" "+ts)
+				as = append(as, a)
+			}
+			for i := 0; i < sig.Results().Len() && why == ""; i++ {
+				ts, ok := r.typeText(pk, file, sig.Results().At(i).Type())
+				if !ok {
+					why = "a result type cannot be written at the site"
+					break
+				}
+				rs = append(rs, ts)
+			}
+		}
+		if why != "" {
+			r.skipped = append(r.skipped, fmt.Sprintf("round %d: method value %s at %s left in place: %s", r.round, fn.FullName(), r.p.Pos(se.Pos()), why))
+			continue
+		}
+		ret := "return "
+		if len(rs) == 0 {
+			ret = ""
+		}
+		text := fmt.Sprintf("func(%s) (%s) { %s%s(%s) }", strings.Join(ps, ", "), strings.Join(rs, ", "), ret, r.text(se), strings.Join(as, ", "))
+		fe := r.file(r.fname(file.Pos()))
+		fe.edits = append(fe.edits, edit{r.off(se.Pos()), r.off(se.End()), text})
+		r.did = append(r.did, fmt.Sprintf("round %d: method value %s at %s wrapped in a literal", r.round, fn.FullName(), r.p.Pos(se.Pos())))
+	}
+}
+
+func enclosingFunc(file *ast.File, pos token.Pos) ast.Node {
+	path, _ := astutil.PathEnclosingInterval(file, pos, pos)
+	var encl ast.Node
+	for _, n := range path {
+		if fd, ok := n.(*ast.FuncDecl); ok {
+			encl = fd
+		}
+	}
+	return encl
+}
+
+// mutatedIn: is v assigned (other than where it is declared) or its address taken anywhere in n? "" when not.
+func mutatedIn(info *types.Info, n ast.Node, v *types.Var) string {
+	if n == nil {
+		return "not inside a function"
+	}
+	why := ""
+	isV := func(e ast.Expr) bool {
+		i, ok := ast.Unparen(e).(*ast.Ident)
+		return ok && info.Uses[i] == types.Object(v)
+	}
+	ast.Inspect(n, func(n ast.Node) bool {
+		switch x := n.(type) {
+		case *ast.AssignStmt:
+			for _, l := range x.Lhs {
+				if isV(l) {
+					why = "the variable is reassigned"
+				}
+			}
+		case *ast.IncDecStmt:
+			if isV(x.X) {
+				why = "the variable is reassigned"
+			}
+		case *ast.UnaryExpr:
+			if x.Op == token.AND && isV(x.X) {
+				why = "the address of the variable is taken"
+			}
+		case *ast.RangeStmt:
+			if (x.Key != nil && isV(x.Key)) || (x.Value != nil && isV(x.Value)) {
+				why = "the variable is reassigned"
+			}
+		}
+		return true
+	})
+	return why
+}
+
+// sameNameArg: the argument is the plain name of a local variable of the caller that is never reassigned, the
+// parameter has the same name and type and the callee never assigns it: the parameter needs no declaration of its
+// own at the site — inside the spliced body the name already means the caller's variable, with the same value.
+func (r *rw) sameNameArg(pk *packages.Package, file *ast.File, pl *plan, arg ast.Expr, par *types.Var) bool {
+	id, ok := ast.Unparen(arg).(*ast.Ident)
+	if !ok || par == nil || id.Name != par.Name() || id.Name == "_" {
+		return false
+	}
+	info := pk.TypesInfo
+	v, _ := info.Uses[id].(*types.Var)
+	if v == nil || v.IsField() || v.Parent() == nil || v.Parent() == pk.Types.Scope() || !types.Identical(v.Type(), par.Type()) {
+		return false
+	}
+	if mutatedIn(info, enclosingFunc(file, id.Pos()), v) != "" {
+		return false
+	}
+	return mutatedIn(pl.cinfo, pl.body, par) == ""
+}
+
+// paramBlocks: the variables the inliner declared for a callee's parameters (`var a, b = (T)(x), (U)(y)` followed by
+// `_, _ = a, b`) that hold a function literal — a callback handed to an inlined helper.
+func (r *rw) paramLiterals(pk *packages.Package, file *ast.File) map[*types.Var]*litVar {
+	info := pk.TypesInfo
+	out := map[*types.Var]*litVar{}
+	ast.Inspect(file, func(n ast.Node) bool {
+		blk, ok := n.(*ast.BlockStmt)
+		if !ok {
+			return true
+		}
+		for i := 0; i+1 < len(blk.List); i++ {
+			ds, ok := blk.List[i].(*ast.DeclStmt)
+			if !ok {
+				continue
+			}
+			gd, ok := ds.Decl.(*ast.GenDecl)
+			if !ok || gd.Tok != token.VAR || len(gd.Specs) != 1 {
+				continue
+			}
+			vs := gd.Specs[0].(*ast.ValueSpec)
+			if vs.Type != nil || len(vs.Names) != len(vs.Values) {
+				continue
+			}
+			as, ok := blk.List[i+1].(*ast.AssignStmt)
+			if !ok || as.Tok != token.ASSIGN || len(as.Lhs) != len(as.Rhs) {
+				continue
+			}
+			blank := true
+			var named []string
+			for k := range as.Lhs {
+				l, ok1 := as.Lhs[k].(*ast.Ident)
+				rr, ok2 := as.Rhs[k].(*ast.Ident)
+				if !ok1 || !ok2 || l.Name != "_" {
+					blank = false
+					break
+				}
+				named = append(named, rr.Name)
+			}
+			if !blank {
+				continue
+			}
+			var want []string
+			for _, nm := range vs.Names {
+				if nm.Name != "_" {
+					want = append(want, nm.Name)
+				}
+			}
+			if strings.Join(want, ",") != strings.Join(named, ",") {
+				continue
+			}
+			for k, nm := range vs.Names {
+				v, _ := info.Defs[nm].(*types.Var)
+				if v == nil {
+					continue
+				}
+				e := ast.Unparen(vs.Values[k])
+				for {
+					c, isCall := e.(*ast.CallExpr)
+					if !isCall || len(c.Args) != 1 {
+						break
+					}
+					if tv, has := info.Types[c.Fun]; !has || !tv.IsType() {
+						break
+					}
+					e = ast.Unparen(c.Args[0])
+				}
+				if lit, isLit := e.(*ast.FuncLit); isLit {
+					out[v] = &litVar{v: v, lit: lit}
+				}
+			}
+		}
+		return true
+	})
+	if len(out) == 0 {
+		return out
+	}
+	// never assigned again, address never taken; count the uses
+	callFun := map[*ast.Ident]bool{}
+	idle := map[*ast.Ident]bool{}
+	bad := map[*types.Var]bool{}
+	isV := func(e ast.Expr) *types.Var {
+		id, ok := ast.Unparen(e).(*ast.Ident)
+		if !ok {
+			return nil
+		}
+		v, _ := info.Uses[id].(*types.Var)
+		if out[v] == nil {
+			return nil
+		}
+		return v
+	}
+	ast.Inspect(file, func(n ast.Node) bool {
+		switch x := n.(type) {
+		case *ast.CallExpr:
+			if id, ok := ast.Unparen(x.Fun).(*ast.Ident); ok {
+				callFun[id] = true
+			}
+		case *ast.AssignStmt:
+			allBlank := x.Tok == token.ASSIGN
+			for _, l := range x.Lhs {
+				if v := isV(l); v != nil {
+					bad[v] = true
+				}
+				if id, ok := l.(*ast.Ident); !ok || id.Name != "_" {
+					allBlank = false
+				}
+			}
+			if allBlank {
+				for _, rr := range x.Rhs {
+					if id, ok := rr.(*ast.Ident); ok {
+						idle[id] = true
+					}
+				}
+			}
+		case *ast.IncDecStmt:
+			if v := isV(x.X); v != nil {
+				bad[v] = true
+			}
+		case *ast.UnaryExpr:
+			if v := isV(x.X); v != nil && x.Op == token.AND {
+				bad[v] = true
+			}
+		case *ast.RangeStmt:
+			if x.Key != nil {
+				if v := isV(x.Key); v != nil {
+					bad[v] = true
+				}
+			}
+			if x.Value != nil {
+				if v := isV(x.Value); v != nil {
+					bad[v] = true
+				}
+			}
+		}
+		return true
+	})
+	for v := range bad {
+		delete(out, v)
+	}
+	ast.Inspect(file, func(n ast.Node) bool {
+		id, ok := n.(*ast.Ident)
+		if !ok {
+			return true
+		}
+		v, _ := info.Uses[id].(*types.Var)
+		lv := out[v]
+		if lv == nil {
+			return true
+		}
+		lv.uses++
+		switch {
+		case idle[id]:
+			lv.idle++
+		case callFun[id]:
+			lv.calls++
+		}
+		return true
+	})
+	return out
+}
+
+// reduceLiterals replaces calls of such a variable by the literal's body (the captured names mean the same thing at
+// the call site, or the call is left in place); once every call is replaced the literal itself gives way to nil.
+func (r *rw) reduceLiterals(pk *packages.Package, file *ast.File) {
+	info := pk.TypesInfo
+	lvs := r.paramLiterals(pk, file)
+	if len(lvs) == 0 {
+		return
+	}
+	var calls []*ast.CallExpr
+	ast.Inspect(file, func(n ast.Node) bool {
+		if call, ok := n.(*ast.CallExpr); ok {
+			if id, ok := ast.Unparen(call.Fun).(*ast.Ident); ok {
+				if v, _ := info.Uses[id].(*types.Var); lvs[v] != nil {
+					calls = append(calls, call)
+				}
+			}
+		}
+		return true
+	})
+	var taken [][2]token.Pos
+	for _, call := range calls {
+		id := ast.Unparen(call.Fun).(*ast.Ident)
+		lv := lvs[info.Uses[id].(*types.Var)]
+		path, _ := astutil.PathEnclosingInterval(file, call.Pos(), call.End())
+		pl, why := r.plan(pk, file, call, nil, lv, path)
+		if pl == nil {
+			r.skipN("literal "+lv.v.Name(), call.Pos(), why)
+			continue
+		}
+		overlap := false
+		for _, t := range taken {
+			if pl.anchor.Pos() < t[1] && t[0] < pl.anchor.End() {
+				overlap = true
+			}
+		}
+		if overlap {
+			continue
+		}
+		taken = append(taken, [2]token.Pos{pl.anchor.Pos(), pl.anchor.End()})
+		r.emit(pk, file, pl)
+	}
+	var vs []*types.Var
+	for v := range lvs {
+		vs = append(vs, v)
+	}
+	sort.Slice(vs, func(i, j int) bool { return vs[i].Pos() < vs[j].Pos() })
+	for _, v := range vs {
+		lv := lvs[v]
+		if r.reduced[v] == 0 || r.reduced[v] != lv.calls || lv.calls+lv.idle != lv.uses {
+			continue
+		}
+		ts, ok := r.typeText(pk, file, info.TypeOf(lv.lit))
+		if !ok {
+			continue
+		}
+		fe := r.file(r.fname(file.Pos()))
+		s, e := r.off(lv.lit.Pos()), r.off(lv.lit.End())
+		var keep []edit
+		for _, ed := range fe.edits {
+			if ed.start >= s && ed.end <= e {
+				continue
+			}
+			keep = append(keep, ed)
+		}
+		fe.edits = append(keep, edit{s, e, "(" + ts + ")(nil)"})
+		r.did = append(r.did, fmt.Sprintf("round %d: literal %s at %s replaced by nil (every call of it inlined)", r.round, v.Name(), r.p.Pos(lv.lit.Pos())))
+	}
 }
 
 // inlineFile rewrites the inlinable call sites of one file (at most one per statement and round).
@@ -291,7 +733,7 @@ func (r *rw) inlineFile(pk *packages.Package, file *ast.File) {
 			continue
 		}
 		path, _ := astutil.PathEnclosingInterval(file, call.Pos(), call.End())
-		pl, why := r.plan(pk, file, call, fn, path)
+		pl, why := r.plan(pk, file, call, fn, nil, path)
 		if pl == nil {
 			r.skip(fn, call.Pos(), why)
 			continue
@@ -332,27 +774,79 @@ func calleeOf(info *types.Info, call *ast.CallExpr) *types.Func {
 
 type plan struct {
 	call     *ast.CallExpr
-	callee   *types.Func
-	decl     *ast.FuncDecl
+	callee   *types.Func  // nil when the callee is a function literal held in a local variable
+	lit      *ast.FuncLit // the literal, in that case
+	litVar   *types.Var   // and the variable
+	body     *ast.BlockStmt
+	sig      *types.Signature
+	cinfo    *types.Info // type information of the callee's package
+	cname    string
+	recvName string
+	iife     bool     // the body is kept whole, as a literal called on the spot (a callee that defers)
 	anchor   ast.Stmt // the statement in a statement list before which the inlined block is placed
 	stmt     ast.Stmt // the statement containing the call
 	wholeStm bool     // the statement is just the call (results dropped)
 	recvText string
 }
 
-func (r *rw) plan(pk *packages.Package, file *ast.File, call *ast.CallExpr, fn *types.Func, path []ast.Node) (*plan, string) {
+func (r *rw) plan(pk *packages.Package, file *ast.File, call *ast.CallExpr, fn *types.Func, lv *litVar, path []ast.Node) (*plan, string) {
 	info := pk.TypesInfo
-	decl := r.fresh[fn]
-	sig := fn.Type().(*types.Signature)
+	var body *ast.BlockStmt
+	var sig *types.Signature
+	var cinfo *types.Info
+	var decl *ast.FuncDecl
+	cname, recvName := "", "_"
+	if fn != nil {
+		decl = r.fresh[fn]
+		body, sig, cinfo, cname = decl.Body, fn.Type().(*types.Signature), r.pkgOf[fn].TypesInfo, fn.FullName()
+		if decl.Recv != nil && len(decl.Recv.List) == 1 && len(decl.Recv.List[0].Names) == 1 {
+			recvName = decl.Recv.List[0].Names[0].Name
+		}
+	} else {
+		body, sig, cinfo, cname = lv.lit.Body, info.TypeOf(lv.lit).(*types.Signature), info, "literal "+lv.v.Name()
+	}
 	if sig.TypeParams() != nil || sig.RecvTypeParams() != nil {
 		return nil, "generic callee"
 	}
-	if why := calleeOK(r.pkgOf[fn].TypesInfo, decl, fn); why != "" {
+	why, defers, recovers := calleeOK(cinfo, body, fn)
+	if why != "" {
 		return nil, why
+	}
+	if lv != nil {
+		// the literal must not mention its own variable
+		ast.Inspect(body, func(n ast.Node) bool {
+			if id, ok := n.(*ast.Ident); ok && info.Uses[id] == types.Object(lv.v) {
+				why = "the literal calls itself"
+			}
+			return true
+		})
+		if why != "" {
+			return nil, why
+		}
+		for _, n := range path {
+			if n == ast.Node(lv.lit) {
+				return nil, "recursive call"
+			}
+		}
+	}
+	iife := false
+	if defers {
+		// a callee that defers can be spliced only where the call is in tail position of a body that does nothing
+		// else: its deferred calls then run exactly when the caller's would (no named results for them to alter, no
+		// recover). Anywhere else its body becomes a literal called on the spot: same frame for the deferred calls.
+		named := false
+		for i := 0; i < sig.Results().Len(); i++ {
+			if n := sig.Results().At(i).Name(); n != "" && n != "_" {
+				named = true
+			}
+		}
+		if lv != nil || named || recovers || tailOnly(call, path) != "" {
+			iife = true
+		}
 	}
 	// enclosing function must not be the callee itself
 	for _, n := range path {
-		if fd, ok := n.(*ast.FuncDecl); ok && fd == decl {
+		if fd, ok := n.(*ast.FuncDecl); ok && decl != nil && fd == decl {
 			return nil, "recursive call"
 		}
 	}
@@ -372,7 +866,11 @@ func (r *rw) plan(pk *packages.Package, file *ast.File, call *ast.CallExpr, fn *
 	}
 	stmt := path[si].(ast.Stmt)
 	parent := path[si+1]
-	pl := &plan{call: call, callee: fn, decl: decl, stmt: stmt, anchor: stmt}
+	pl := &plan{call: call, callee: fn, body: body, sig: sig, cinfo: cinfo, cname: cname, recvName: recvName, stmt: stmt, anchor: stmt}
+	pl.iife = iife
+	if lv != nil {
+		pl.lit, pl.litVar = lv.lit, lv.v
+	}
 	ai := si // index of the anchor in path
 	switch s := stmt.(type) {
 	case *ast.GoStmt:
@@ -533,10 +1031,75 @@ func within(n ast.Node, e ast.Node) bool {
 	return e != nil && e.Pos() <= n.Pos() && n.End() <= e.End()
 }
 
-// calleeOK: the body can be spliced as statements.
-func calleeOK(info *types.Info, decl *ast.FuncDecl, fn *types.Func) string {
+// tailOnly: the call is the whole of `return call(…)` (or of an expression statement) and that statement is the
+// whole body of the enclosing function or literal.
+func tailOnly(call *ast.CallExpr, path []ast.Node) string {
+	for i, n := range path {
+		st, ok := n.(ast.Stmt)
+		if !ok {
+			if _, lit := n.(*ast.FuncLit); lit {
+				break
+			}
+			continue
+		}
+		switch s := st.(type) {
+		case *ast.ReturnStmt:
+			if len(s.Results) != 1 || ast.Unparen(s.Results[0]) != ast.Expr(call) {
+				return "not the whole return value"
+			}
+		case *ast.ExprStmt:
+			if ast.Unparen(s.X) != ast.Expr(call) {
+				return "not the whole statement"
+			}
+		default:
+			return "not in tail position"
+		}
+		if i+2 >= len(path) {
+			return "not in tail position"
+		}
+		blk, ok := path[i+1].(*ast.BlockStmt)
+		if !ok || len(blk.List) != 1 {
+			return "the caller does more than the call"
+		}
+		switch f := path[i+2].(type) {
+		case *ast.FuncDecl:
+			if f.Body == blk {
+				return ""
+			}
+		case *ast.FuncLit:
+			if f.Body == blk {
+				return ""
+			}
+		}
+		return "not in tail position"
+	}
+	return "not in tail position"
+}
+
+// calleeOK: the body can be spliced as statements. defers reports that the body defers (and does not recover).
+func calleeOK(info *types.Info, body *ast.BlockStmt, fn *types.Func) (string, bool, bool) {
 	why := ""
-	ast.Inspect(decl.Body, func(n ast.Node) bool {
+	defers, recovers := false, false
+	ast.Inspect(body, func(n ast.Node) bool {
+		if d, ok := n.(*ast.DeferStmt); ok {
+			defers = true
+			_ = d
+		}
+		return true
+	})
+	if defers {
+		ast.Inspect(body, func(n ast.Node) bool {
+			if x, ok := n.(*ast.CallExpr); ok {
+				if id, ok := ast.Unparen(x.Fun).(*ast.Ident); ok {
+					if b, ok := info.Uses[id].(*types.Builtin); ok && b.Name() == "recover" {
+						recovers = true
+					}
+				}
+			}
+			return true
+		})
+	}
+	ast.Inspect(body, func(n ast.Node) bool {
 		if why != "" {
 			return false
 		}
@@ -544,9 +1107,9 @@ func calleeOK(info *types.Info, decl *ast.FuncDecl, fn *types.Func) string {
 		case *ast.FuncLit:
 			return false
 		case *ast.DeferStmt:
-			why = "callee defers"
+			// decided at the call site (tailOnly)
 		case *ast.LabeledStmt:
-			why = "callee has labels"
+			// labels are renamed per site when the body is copied (bodyText)
 		case *ast.BranchStmt:
 			if x.Tok == token.GOTO {
 				why = "callee uses goto"
@@ -557,13 +1120,13 @@ func calleeOK(info *types.Info, decl *ast.FuncDecl, fn *types.Func) string {
 					why = "callee recovers"
 				}
 			}
-			if calleeOf(info, x) == fn {
+			if fn != nil && calleeOf(info, x) == fn {
 				why = "callee is recursive"
 			}
 		}
 		return true
 	})
-	return why
+	return why, defers, recovers
 }
 
 // evalRoots lists the operand expressions of a statement in evaluation order.
@@ -713,7 +1276,7 @@ func hoistable(info *types.Info, e ast.Expr, call *ast.CallExpr) bool {
 // captureCheck: every package-level, imported or predeclared name the callee's body (and signature) uses must
 // resolve to the same object at the call site; imports the caller's file lacks are added.
 func (r *rw) captureCheck(pk *packages.Package, file *ast.File, pl *plan) string {
-	info := r.pkgOf[pl.callee].TypesInfo
+	info := pl.cinfo
 	callerFile := r.fname(file.Pos())
 	scope := pk.Types.Scope().Innermost(pl.anchor.Pos())
 	if scope == nil {
@@ -750,7 +1313,14 @@ func (r *rw) captureCheck(pk *packages.Package, file *ast.File, pl *plan) string
 		default:
 			par := obj.Parent()
 			if par != types.Universe && (obj.Pkg() == nil || par != obj.Pkg().Scope()) {
-				return // a local of the callee, a field or a method
+				// a local of the callee, a field or a method — or, for a literal, a variable (type, constant) of the
+				// enclosing function that it captures: that one must be what the name means at the call site too
+				if pl.lit != nil && par != nil && !(pl.lit.Pos() <= obj.Pos() && obj.Pos() < pl.lit.End()) {
+					if _, at := scope.LookupParent(id.Name, pl.anchor.Pos()); at != obj {
+						why = "captured name " + id.Name + " means something else at the call site"
+					}
+				}
+				return
 			}
 			_, at := scope.LookupParent(id.Name, pl.anchor.Pos())
 			if at != obj {
@@ -775,7 +1345,7 @@ func (r *rw) captureCheck(pk *packages.Package, file *ast.File, pl *plan) string
 			return true
 		})
 	}
-	walk(pl.decl.Body)
+	walk(pl.body)
 	return why
 }
 
@@ -862,16 +1432,14 @@ func (r *rw) use(file, path string) {
 func (r *rw) emit(pk *packages.Package, file *ast.File, pl *plan) {
 	r.site++
 	k := fmt.Sprintf("%d_%d", r.round, r.site)
-	sig := pl.callee.Type().(*types.Signature)
-	cinfo := r.pkgOf[pl.callee].TypesInfo
-	callerFile := r.fname(file.Pos())
+	sig := pl.sig
 	var b strings.Builder
 	// result temporaries
 	var temps []string
 	for i := 0; i < sig.Results().Len(); i++ {
 		ts, ok := r.typeText(pk, file, sig.Results().At(i).Type())
 		if !ok {
-			r.skip(pl.callee, pl.call.Pos(), "a result type cannot be written at the call site")
+			r.skipN(pl.cname, pl.call.Pos(), "a result type cannot be written at the call site")
 			return
 		}
 		t := fmt.Sprintf("inl%s_r%d", k, i)
@@ -884,27 +1452,26 @@ func (r *rw) emit(pk *packages.Package, file *ast.File, pl *plan) {
 	if rv := sig.Recv(); rv != nil {
 		ts, ok := r.typeText(pk, file, rv.Type())
 		if !ok {
-			r.skip(pl.callee, pl.call.Pos(), "the receiver type cannot be written at the call site")
+			r.skipN(pl.cname, pl.call.Pos(), "the receiver type cannot be written at the call site")
 			return
 		}
-		name := "_"
-		if pl.decl.Recv != nil && len(pl.decl.Recv.List) == 1 && len(pl.decl.Recv.List[0].Names) == 1 {
-			name = pl.decl.Recv.List[0].Names[0].Name
+		se, _ := ast.Unparen(pl.call.Fun).(*ast.SelectorExpr)
+		if se == nil || !r.sameNameArg(pk, file, pl, se.X, rv) || pl.recvText != rv.Name() {
+			names = append(names, pl.recvName)
+			vals = append(vals, "("+ts+")("+pl.recvText+")")
 		}
-		names = append(names, name)
-		vals = append(vals, "("+ts+")("+pl.recvText+")")
 	}
 	np := sig.Params().Len()
 	args := pl.call.Args
 	if len(args) == 1 && np > 1 {
-		r.skip(pl.callee, pl.call.Pos(), "arguments are the results of another call")
+		r.skipN(pl.cname, pl.call.Pos(), "arguments are the results of another call")
 		return
 	}
 	for i := 0; i < np; i++ {
 		pv := sig.Params().At(i)
 		ts, ok := r.typeText(pk, file, pv.Type())
 		if !ok {
-			r.skip(pl.callee, pl.call.Pos(), "a parameter type cannot be written at the call site")
+			r.skipN(pl.cname, pl.call.Pos(), "a parameter type cannot be written at the call site")
 			return
 		}
 		name := pv.Name()
@@ -927,8 +1494,12 @@ func (r *rw) emit(pk *packages.Package, file *ast.File, pl *plan) {
 			continue
 		}
 		if i >= len(args) {
-			r.skip(pl.callee, pl.call.Pos(), "argument count not understood")
+			r.skipN(pl.cname, pl.call.Pos(), "argument count not understood")
 			return
+		}
+		if r.sameNameArg(pk, file, pl, args[i], pv) {
+			names = names[:len(names)-1]
+			continue
 		}
 		vals = append(vals, "("+ts+")("+r.text(args[i])+")")
 	}
@@ -944,6 +1515,25 @@ func (r *rw) emit(pk *packages.Package, file *ast.File, pl *plan) {
 			fmt.Fprintf(&b, "%s = %s\n", strings.Repeat("_, ", len(used)-1)+"_", strings.Join(used, ", "))
 		}
 	}
+	if pl.iife {
+		var rs []string
+		for i := 0; i < sig.Results().Len(); i++ {
+			rv := sig.Results().At(i)
+			ts, _ := r.typeText(pk, file, rv.Type())
+			if rv.Name() != "" {
+				ts = rv.Name() + " " + ts
+			}
+			rs = append(rs, ts)
+		}
+		fe0 := r.file(r.fname(pl.body.Pos()))
+		if len(temps) > 0 {
+			fmt.Fprintf(&b, "%s = ", strings.Join(temps, ", "))
+		}
+		fmt.Fprintf(&b, "func() (%s) {\n//line %s:%d\n%s\n}()\n}\n", strings.Join(rs, ", "), r.fname(pl.body.Pos()),
+			r.p.Fset.PositionFor(pl.body.Lbrace, false).Line, string(fe0.src[r.off(pl.body.Lbrace)+1:r.off(pl.body.Rbrace)]))
+		r.finishEmit(pk, file, pl, &b, temps)
+		return
+	}
 	// named results are locals of the inlined block
 	var named []string
 	for i := 0; i < sig.Results().Len(); i++ {
@@ -958,11 +1548,11 @@ func (r *rw) emit(pk *packages.Package, file *ast.File, pl *plan) {
 	label := "inl" + k + "_L"
 	body, usesLabel, ok := r.bodyText(pl, temps, named, label)
 	if !ok {
-		r.skip(pl.callee, pl.call.Pos(), "a return statement of the callee is not understood")
+		r.skipN(pl.cname, pl.call.Pos(), "a return statement of the callee is not understood")
 		return
 	}
-	calleeFile := r.fname(pl.decl.Pos())
-	lb := r.p.Fset.PositionFor(pl.decl.Body.Lbrace, false).Line
+	calleeFile := r.fname(pl.body.Pos())
+	lb := r.p.Fset.PositionFor(pl.body.Lbrace, false).Line
 	if usesLabel {
 		fmt.Fprintf(&b, "%s:\nswitch {\ndefault:\n", label)
 	} else {
@@ -971,24 +1561,36 @@ func (r *rw) emit(pk *packages.Package, file *ast.File, pl *plan) {
 	fmt.Fprintf(&b, "//line %s:%d\n", calleeFile, lb)
 	b.WriteString(body)
 	b.WriteString("\n}\n}\n")
+	r.finishEmit(pk, file, pl, &b, temps)
+}
+
+// finishEmit places the text built for one site and does the bookkeeping.
+func (r *rw) finishEmit(pk *packages.Package, file *ast.File, pl *plan, bp *strings.Builder, temps []string) {
+	b := bp
+	cinfo := pl.cinfo
+	callerFile := r.fname(file.Pos())
 	al := r.p.Fset.PositionFor(pl.anchor.Pos(), false).Line
 	fe := r.file(callerFile)
 	if pl.wholeStm {
 		for _, t := range temps {
-			fmt.Fprintf(&b, "_ = %s\n", t)
+			fmt.Fprintf(b, "_ = %s\n", t)
 		}
-		fmt.Fprintf(&b, "//line %s:%d\n", callerFile, r.p.Fset.PositionFor(pl.stmt.End(), false).Line)
+		fmt.Fprintf(b, "//line %s:%d\n", callerFile, r.p.Fset.PositionFor(pl.stmt.End(), false).Line)
 		// replace the whole statement
 		fe.edits = append(fe.edits, edit{r.off(pl.stmt.Pos()), r.off(pl.stmt.End()), "\n" + b.String()})
 	} else {
-		fmt.Fprintf(&b, "//line %s:%d\n", callerFile, al)
+		fmt.Fprintf(b, "//line %s:%d\n", callerFile, al)
 		fe.edits = append(fe.edits, edit{r.off(pl.anchor.Pos()), r.off(pl.anchor.Pos()), "\n" + b.String()})
 		fe.edits = append(fe.edits, edit{r.off(pl.call.Pos()), r.off(pl.call.End()), strings.Join(temps, ", ")})
 	}
 	// bookkeeping
-	r.inlinedUses[pl.callee]++
-	r.copied[pl.callee] = true
-	ast.Inspect(pl.decl.Body, func(n ast.Node) bool {
+	if pl.callee != nil {
+		r.inlinedUses[pl.callee]++
+		r.copied[pl.callee] = true
+	} else {
+		r.reduced[pl.litVar]++
+	}
+	ast.Inspect(pl.body, func(n ast.Node) bool {
 		if id, ok := n.(*ast.Ident); ok {
 			if pn, ok := cinfo.Uses[id].(*types.PkgName); ok {
 				r.use(callerFile, pn.Imported().Path())
@@ -996,20 +1598,36 @@ func (r *rw) emit(pk *packages.Package, file *ast.File, pl *plan) {
 		}
 		return true
 	})
-	r.did = append(r.did, fmt.Sprintf("round %d: %s inlined at %s", r.round, pl.callee.FullName(), r.p.Pos(pl.call.Pos())))
+	r.did = append(r.did, fmt.Sprintf("round %d: %s inlined at %s", r.round, pl.cname, r.p.Pos(pl.call.Pos())))
 }
 
 // bodyText is the callee's body with `return …` turned into `temps = …; break label`.
 func (r *rw) bodyText(pl *plan, temps, named []string, label string) (string, bool, bool) {
-	fe := r.file(r.fname(pl.decl.Pos()))
-	start, end := r.off(pl.decl.Body.Lbrace)+1, r.off(pl.decl.Body.Rbrace)
+	fe := r.file(r.fname(pl.body.Pos()))
+	start, end := r.off(pl.body.Lbrace)+1, r.off(pl.body.Rbrace)
 	var eds []edit
 	okAll := true
 	var rets []*ast.ReturnStmt
-	ast.Inspect(pl.decl.Body, func(n ast.Node) bool {
+	labels := map[string]bool{}
+	ast.Inspect(pl.body, func(n ast.Node) bool {
 		switch x := n.(type) {
 		case *ast.FuncLit:
 			return false
+		case *ast.LabeledStmt:
+			labels[x.Label.Name] = true
+		}
+		return true
+	})
+	ast.Inspect(pl.body, func(n ast.Node) bool {
+		switch x := n.(type) {
+		case *ast.FuncLit:
+			return false
+		case *ast.LabeledStmt:
+			eds = append(eds, edit{r.off(x.Label.Pos()), r.off(x.Label.End()), x.Label.Name + "_" + label})
+		case *ast.BranchStmt:
+			if x.Label != nil && labels[x.Label.Name] {
+				eds = append(eds, edit{r.off(x.Label.Pos()), r.off(x.Label.End()), x.Label.Name + "_" + label})
+			}
 		case *ast.ReturnStmt:
 			rets = append(rets, x)
 		}
@@ -1017,8 +1635,8 @@ func (r *rw) bodyText(pl *plan, temps, named []string, label string) (string, bo
 	})
 	// a return that is the last statement of the body needs no jump
 	var last ast.Stmt
-	if n := len(pl.decl.Body.List); n > 0 {
-		last = pl.decl.Body.List[n-1]
+	if n := len(pl.body.List); n > 0 {
+		last = pl.body.List[n-1]
 	}
 	usesLabel := false
 	for _, ret := range rets {
